@@ -4,6 +4,11 @@
 (* Design part : mem / store and the actions of ReplicateMeteImpl, one per  *)
 (*               public call (each call is one critical section under       *)
 (*               metaLock).  Deviation switches: WriteBack, RemovePart.     *)
+(*               ReportPar: two shards report the same message at the same  *)
+(*               time from two goroutines; as built the merge and the store *)
+(*               write happen under one lock, so the reports serialise      *)
+(*               (LockedMerge; FALSE = negative control: both read the old  *)
+(*               set, the later store write wins).                          *)
 (* Contract part: ghost variables okRep / allRep / dirty and the invariants *)
 (*               the property statement demands, phrased over the           *)
 (*               observable projection (Get* results = mem, store dump).    *)
@@ -16,6 +21,8 @@ CONSTANTS Tasks,        \* task ids
           Targets,      \* target channel set of every message (SUBSET Chans)
           WriteBack,    \* TRUE = merged ready set is written back to memory (repaired)
           RemovePart,   \* TRUE = RemoveTaskMsg also forgets partition messages (repaired)
+          LockedMerge,  \* TRUE = as built: read-merge-write of a report is one critical section
+          WithPar,      \* TRUE = concurrent pairs of reports are part of the histories
           MaxOps,       \* history bound
           WithFaults    \* TRUE = store calls may fail (fail-before, no effect)
 
@@ -78,6 +85,20 @@ Report(t, m, S, f) ==
               /\ last' = [op |-> "report", err |-> f, ready |-> (~f /\ merged = Targets), key |-> k, targets |-> Targets]
     /\ GhostReport(k, S, f)
 
+\* two concurrent reports {c1}, {c2} of one key (no faults); w = which store write lands last when they overlap
+ReportPar(t, m, c1, c2, w) ==
+    LET k == <<t, m>>
+        old == IF k \in memP THEN memR[k] ELSE {}
+        both == old \cup {c1, c2}
+        lost == old \cup {IF w = 1 THEN c1 ELSE c2}
+        fin == IF LockedMerge \/ k \notin memP THEN both ELSE lost    \* the first report of a key is inserted under the lock
+    IN /\ c1 # c2
+       /\ memP' = memP \cup {k} /\ storeP' = storeP \cup {k}
+       /\ memR' = [memR EXCEPT ![k] = IF WriteBack \/ k \notin memP THEN fin ELSE @]
+       /\ storeR' = [storeR EXCEPT ![k] = fin]
+       /\ last' = [op |-> "par", err |-> FALSE, ready |-> (fin = Targets), key |-> k, targets |-> Targets]
+       /\ GhostReport(k, {c1, c2}, FALSE)
+
 \* RemoveTaskMsg
 Remove(t, m, f) ==
     LET k == <<t, m>> IN
@@ -109,6 +130,11 @@ Next ==
             /\ hist' = Append(hist, [op |-> "remove", task |-> t, msg |-> m, fault |-> f])
        \/ /\ Reload
           /\ hist' = Append(hist, [op |-> "reload"])
+       \/ \E t \in Tasks, m \in Msgs, c1 \in Chans, c2 \in Chans, w \in {1, 2} :
+            /\ WithPar
+            /\ ReportPar(t, m, c1, c2, w)
+            /\ hist' = Append(hist, [op |-> "par", task |-> t, msg |-> m, kind |-> IF m \in MsgsC THEN "coll" ELSE "part",
+                                     a |-> c1, b |-> c2, w |-> w])
 
 Spec == Init /\ [][Next]_vars
 
@@ -122,7 +148,7 @@ UnionOfReports == \A k \in Keys :
                  /\ (k \in memP   => okRep[k] \subseteq memR[k]   /\ memR[k]   \subseteq allRep[k])
                  /\ (okRep[k] # {} => k \in storeP /\ k \in memP)
 \* ready is returned exactly when the union equals the target set
-ReadyIffComplete == (last.op = "report" /\ ~last.err) =>
+ReadyIffComplete == (last.op \in {"report", "par"} /\ ~last.err) =>
                         (last.ready <=> storeR[last.key] = last.targets)
 \* removal removes from store and memory, for both kinds
 RemoveBothKinds == (last.op = "remove" /\ ~last.err) =>
